@@ -413,4 +413,5 @@ Proof.
     destruct (c_archived_on (cs s)); reflexivity.
   - destruct (c_direct c); reflexivity.
   - destruct (c_direct c); reflexivity.
+  - reflexivity.
 Qed.
